@@ -27,6 +27,17 @@ OPS = {
     'SetAlertState': 'as0.mds0_rem_dele',
 }
 HANDLERS = ('real', 'ok', 'ok-mod', 'fail', 'raise')
+# exceptions with awkward texts / types: the Fail report must still be produced and carry error information
+RAISE_TEXTS = {
+    'raise': lambda: RuntimeError('handler exploded'),
+    'raise-ctl': lambda: RuntimeError('bad \x00 byte \x1b[31m and \x08'),
+    'raise-xml': lambda: ValueError('<a & b> ]]> "quoted" \'single\' &amp;'),
+    'raise-uni': lambda: KeyError('Gr\u00f6\u00dfe \u20ac \ud7ff \U0001f600'),
+    'raise-empty': lambda: RuntimeError(),
+    'raise-long': lambda: OSError(5, 'x' * 70000),
+    'raise-nl': lambda: RuntimeError('line1\r\nline2\n\ttabbed  '),
+    'raise-surrogate': lambda: RuntimeError('lone \udc80 surrogate \ufffe'),
+}
 QUEUE_CAPACITY = 10     # sco._OperationsWorker: queue.Queue(10)
 
 
@@ -69,7 +80,7 @@ def _install_handler(provider, handle, mode, delayed):
             return ExecuteResult(target, InvocationState.FINISHED_MOD)
         if mode == 'fail':
             return ExecuteResult(target, InvocationState.FAILED)
-        raise RuntimeError('handler exploded')
+        raise RAISE_TEXTS[mode]()
     op._operation_handler = handler
     return op
 
@@ -116,7 +127,7 @@ def run_provider_case(case, acc=None):
                 # promises nothing; what is not allowed is to promise Wait and never execute
                 rejected_by_fault += 1
                 continue
-            problems.append(f'request raised {ex!r}')
+            problems.append(f'{kind}/{"queued" if delayed else "direct"}/{mode}: request raised {type(ex).__name__} {str(ex)[:60]}')
             return 'ok', problems
         futures.append((fut, kind, delayed, mode))
         # the response is known now (call_operation returned): its transaction id must exceed all earlier ones
@@ -161,7 +172,7 @@ def run_provider_case(case, acc=None):
             problems.append(f'{tag}: result handle completed with non-final state {final}')
         elif finals and final not in finals:
             problems.append(f'{tag}: result handle completed with {final}, protocol final state is {sorted(finals)}')
-        if mode == 'raise':
+        if mode.startswith('raise'):
             if finals != {'Fail'}:
                 problems.append(f'{tag}: raising handler yields {sorted(finals)} instead of Fail')
             errs = [(e, m) for t, s, e, m in reports if t == tid and s == 'Fail']
@@ -451,6 +462,11 @@ def provider_cases(quick):
         for delayed in (False, True):
             for mode in HANDLERS:
                 singles.append((0, kind, delayed, mode))
+    for kind in (kinds[:2] if quick else kinds):
+        for delayed in (False, True):
+            for mode in RAISE_TEXTS:
+                if mode != 'raise':
+                    singles.append((0, kind, delayed, mode))
     cases = [[s] for s in singles] + [[(0, 'Unknown', False, 'real')], [(1, 'Unknown', True, 'real'), (0, 'Unknown', True, 'real')]]
     pair_kinds = ['SetString', 'Activate'] if quick else kinds[:4]
     pair_modes = ['ok', 'fail', 'raise'] if quick else ['real', 'ok', 'ok-mod', 'fail', 'raise']
